@@ -191,7 +191,11 @@ def run(ctx):
                 res.ob(False)
                 res.undecide(f"{name} caching={caching}: {u}")
     res.rule("FAULT-SWEEP", n)
-    temp_rule(ctx, res)
+    from rules import structural
+    for q in ("edgegraph.output.pyvis.make_pyvis_net", "edgegraph.output.plantuml.render_to_plantuml_src", "edgegraph.output.plaintext.basic_render", "edgegraph.traversal.helpers.neighbors",
+              "edgegraph.traversal.helpers.find_links", "edgegraph.traversal.breadthfirst.ibft", "edgegraph.traversal.depthfirst._dft_recur", "edgegraph.traversal.depthfirst.idft_iterative"):
+        structural.temp_rule(ctx, q)
+    structural.memo_on_success(ctx)
     common.vacuity(res, "FAULT-SWEEP", 150)
     res.analysed = common.analysed(ctx, sorted({q for _, q, _, _ in entry_points(h, rec)}))
     res.explanation = "For every entry point and every fault position the graph's projected heap is unchanged and the repeated call gives the fault-free answer."
@@ -249,8 +253,8 @@ def replay(name, cb=None, k=None):
             if cb else f"# entry point {name}: compare vars() of every vertex/link/universe before and after the call")
 
 
-def temp_rule(ctx, res):
-    """TEMP (structural pointer): attribute stores on parameter-reachable objects inside read-only entry points."""
+def _old_temp_rule(ctx, res):
+    """(superseded by rules.structural.temp_rule)"""
     prog = common.program(ctx)
     n = 0
     for q in ("edgegraph.output.pyvis.make_pyvis_net", "edgegraph.output.plantuml.render_to_plantuml_src", "edgegraph.output.plaintext.basic_render",
